@@ -582,6 +582,12 @@ class Verifier(Engine):
         return o.val if o.kind == 'ret' and o.val is not None else VNONE
 
     def call_closure(self, st, fv, args, kwargs):
+        if fv.qual in self.ctr.inline:
+            # a local helper that reads the enclosing function's variables: executed in place, in the current environment
+            fn_node = fv.node
+            if fn_node.args.args or fn_node.args.kwonlyargs or args or kwargs:
+                raise OutOfSubset('inlined closure with parameters')
+            return self.run_inline(st, fn_node, dict(st.env))
         ctr = REG.get(fv.qual)
         if ctr is None:
             raise BindingError('closure %s has no contract' % fv.qual)
@@ -657,6 +663,20 @@ class Verifier(Engine):
         self.yield_count += 1
         st.nyield = st.nyield + 1
         st.last_yield = v
+        ctr = self.ctr
+        if ctr.yields and isinstance(v, (VRef, VNoneT)):
+            v = self.coerce(v, ctr.yields, st)
+        env = {'y': v}
+        for j, txt in enumerate(ctr.yield_ensures):
+            t, new = self.spec_eval(st, txt, extra_env=env)
+            g = st.fork()
+            g.pc += new
+            self.oblige('yield[%d]@s%s' % (j, self.cur_site), g, t)
+        for name, expr in ctr.yield_acc.items():
+            d, new = self.spec_value(st, expr, extra_env=env)
+            for f in new:
+                st.assume(f)
+            st.env[name] = VInt(st.env[name].t + d.t)
 
     def st_Return(self, st, s):
         v = self.ev.ev(st, s.value) if s.value is not None else VNONE
